@@ -1,9 +1,14 @@
 import SFV.Lemmas.ProvGraph
+import SFV.Lemmas.ProvFuel
+import SFV.Lemmas.Avail
+import SFV.Gen.AvailGuards
+import SFV.Gen.ProvGuards
 /-! # C18 — recovery re-runs only failed jobs and producers of lost data
 
 Theorems about the model of `ProvenanceGraph.build_graph` (`SFV/Model/ProvGraph.lean`): the set of tokens the recovery
 workflow regenerates. `stop t` = the token's data is available or it is the job token of a job that is already being
-recovered. Quantified over every provenance relation `deps` (no acyclicity needed for these statements), every
+recovered. Quantified over every provenance relation `deps` (no acyclicity needed for the partial-correctness statements; fuel
+sufficiency needs tokens `< N` and no self-dependency), every
 availability map and every list of input tokens. What is abstracted: tokens are ids; `is_available` is a flag (the
 real one looks at the data manager and the file system — exercised by the recovery runs of the correspondence check);
 the mapping from tokens to the steps/jobs that are re-executed (`GraphMapper.get_step_ids`) is checked end to end on
@@ -77,6 +82,83 @@ theorem build_graph_raises_iff_no_previous (inp : In) (s : BSt) (t : Nat) (q : L
     visit inp s t q = none ↔ (inp.stop t = false ∧ inp.deps t = []) := by
   unfold visit
   cases hs : inp.stop t <;> cases hd : inp.deps t <;> simp
+
+/-- **fuel sufficiency** (the model's loop bound is not a restriction): for a provenance relation over tokens `< N` without
+    self-dependencies (every DAG) and duplicate-free inputs, `N` iterations suffice — `build_graph` either returns a graph or
+    raises for a lost token without dependees; each token is popped at most once (`Lemmas/ProvFuel.lean`) -/
+theorem build_graph_fuel_sufficient (inp : In) (N : Nat) (inputs : List Nat) (hb : Bounded inp N) (hi : Irrefl inp)
+    (hn : inputs.Nodup) (hlt : ∀ i, i ∈ inputs → i < N) :
+    (∃ s, buildGraph inp N inputs = .ok s) ∨ (∃ t, buildGraph inp N inputs = .noPrev t) := by
+  have hf : FInv N (start inputs) :=
+    { infoNodup := by simp [start], queueNodup := by simpa [start] using hn, disjoint := by simp [start],
+      infoLt := by simp [start], queueLt := by simpa [start] using hlt }
+  have := bfs_fuel hb hi N (start inputs) hf (by simp [start])
+  unfold buildGraph
+  cases hres : bfs inp N (start inputs) with
+  | ok s => exact Or.inl ⟨s, rfl⟩
+  | noPrev t => exact Or.inr ⟨t, rfl⟩
+  | outOfFuel => exact absurd hres this
+
+/-- with enough fuel the answer does not depend on the fuel: together with `build_graph_closure` the result on a DAG is THE
+    backward closure — stated as: any two successful runs have the same node membership -/
+theorem build_graph_nodes_fuel_independent (inp : In) (inputs : List Nat) (f1 f2 : Nat) (s1 s2 : BSt)
+    (h1 : buildGraph inp f1 inputs = .ok s1) (h2 : buildGraph inp f2 inputs = .ok s2) (n : Nat) :
+    n ∈ s1.nodes ↔ n ∈ s2.nodes := by
+  rw [build_graph_closure inp inputs f1 s1 h1, build_graph_closure inp inputs f2 s2 h2]
+
+/-- without the hypothesis: a token that depends on itself is enqueued again and again — two iterations do not suffice for
+    two tokens -/
+theorem self_dependency_needs_more_fuel :
+    (match buildGraph ⟨fun t => if t = 1 then [1, 0] else [], fun t => t == 0⟩ 2 [1] with
+      | .outOfFuel => true | _ => false) = true := by decide
+
+/-- non-vacuity of `build_graph_fuel_sufficient`: the diamond below with exactly `N = 5` iterations -/
+example : (match buildGraph ⟨fun t => match t with | 4 => [2, 3] | 2 => [1] | 3 => [0] | 1 => [0] | _ => [],
+                             fun t => t == 1 || t == 3 || t == 0⟩ 5 [4] with
+    | .ok s => s.nodes == [4, 2, 3, 1] | _ => false) = true := by decide
+
+/-- **T** (statement-level tie of the hand-written model to the source): every statement of `build_graph` that `Model/ProvGraph.lean`
+    transcribes is found in the source as the model has it — frontier = deque of the inputs which are nodes from the start, FIFO pop,
+    stop at the job token of a job being recovered and at available tokens, dependees from the provenance table, edge dependee → token,
+    enqueue unless visited (`info_tokens`) or already in the frontier, raise when a lost token has no dependees, a token becomes
+    "visited" only at the end of its own iteration (why `Irrefl` is needed for fuel sufficiency) -/
+theorem gen_build_graph_shape :
+    Gen.provShape = ⟨true, true, true, true, true, true, true, true, true, true, true, true⟩ := rfl
+
+/-! ## what "available" means (model `SFV/Model/Avail.lean`, quantifiers generated from the source) -/
+
+/-- **T**: `FileToken.is_available` asks for SOME surviving copy of each path, `ListToken` / `ObjectToken` for EVERY element -/
+theorem gen_avail_quantifiers : Gen.availCfg = Avail.codeCfg := rfl
+
+/-- **available ⇔ nothing is lost**: with the repository's quantifiers a token (plain, file, list or record, nested at will) is
+    available iff every leaf is recoverable and every path of every file in it has at least one surviving primary copy -/
+theorem available_iff_every_leaf_survives (t : Avail.Tok) : Avail.avail Gen.availCfg t = true ↔ Avail.Good t := by
+  rw [gen_avail_quantifiers]; exact Avail.avail_iff t
+
+/-- the two models together: run `build_graph` with `stop` = "another recovery re-runs this job" or "available" (availability
+    model, generated quantifiers): every token of the result either is being recovered / has all its data, or all its dependees
+    are in the result with their edges -/
+theorem graph_nodes_survive_or_are_regenerated (tok : Nat → Avail.Tok) (recovering : Nat → Bool) (deps : Nat → List Nat)
+    (inputs : List Nat) (fuel : Nat) (s : BSt)
+    (h : buildGraph ⟨deps, fun t => recovering t || Avail.avail Gen.availCfg (tok t)⟩ fuel inputs = .ok s) (t : Nat) (ht : t ∈ s.nodes) :
+    (recovering t = true ∨ Avail.Good (tok t)) ∨ (deps t ≠ [] ∧ ∀ p, p ∈ deps t → p ∈ s.nodes ∧ (p, t) ∈ s.edges) := by
+  rcases sources_available _ inputs fuel s h t ht with h1 | h1
+  · left
+    simp only [Bool.or_eq_true] at h1
+    exact h1.imp id (available_iff_every_leaf_survives (tok t)).mp
+  · exact Or.inr h1
+
+/-- each quantifier matters (the two classes of edits seen in the seeded changes): with `all` over the copies a surviving replica
+    is ignored (the producer is re-run although its data exists); with `any` over the fields of a record a partial loss is missed
+    (the producer is NOT re-run although part of its output is gone) -/
+theorem wrong_quantifiers_false :
+    (Avail.avail Avail.codeCfg (.file true [[false, true]]) = true ∧ Avail.avail ⟨.all, .all, .all⟩ (.file true [[false, true]]) = false) ∧
+    (Avail.avail Avail.codeCfg (.record [.file true [[true]], .file true [[false]]]) = false ∧
+     Avail.avail ⟨.any, .all, .any⟩ (.record [.file true [[true]], .file true [[false]]]) = true) := by decide
+
+/-- non-vacuity: a record holding a list of two replicated files and a plain value, one copy of each file lost: available -/
+example : Avail.avail Gen.availCfg (.record [.list [.file true [[true, false]], .file true [[false, true]]], .plain true]) = true := by
+  decide
 
 /-! ### non-vacuity: a diamond with one lost branch -/
 
